@@ -23,6 +23,7 @@ type c17Params struct {
 	RandOpts int   `json:"rand_opts"` // >1: every Fastrand answer is an environment choice among this many values
 	BufSize  int   `json:"buf_size"`  // ring size of the instrumented build (small variant: 4, native: 16)
 	Doubles  int   `json:"doubles"`   // table doublings applied after the prefill (reachable through contention; see VerifDouble)
+	Doublers int   `json:"doublers"`  // threads that double the table once during the run (the expansion step of a contended Add, under the busy flag)
 }
 
 func init() {
@@ -84,6 +85,9 @@ func c17Body(x *Exec, raw json.RawMessage) {
 				recs[ai] = append(recs[ai], addRec{key, st})
 			}
 		})
+	}
+	for i := 0; i < p.Doublers; i++ {
+		bodies = append(bodies, func() { s.VerifDouble() })
 	}
 	bodies = append(bodies, func() {
 		for d := 0; d < p.Drains; d++ {
